@@ -6,8 +6,10 @@
      sem            the wrapped function on its keyword arguments (universally quantified)
      py_bind        python's own binding of f( *pos, **kw) for positional-or-keyword parameters
      ref_run        "accumulate the arguments given so far, call the definition": per call the
-                    accumulated arguments, the definition's value (None: python raises) and a
-                    flag "repeats the arguments of the latest call that returned"
+                    accumulated arguments and the definition's value (None: python raises)
+     step_fn        one call of the node against one call of the reference: same accumulated
+                    arguments, refused iff python raises, else the definition's value is returned
+                    and the outputs hold it
      op_admitted    the values an op passes suit the hints of the channels they go to
                     (hint enforcement itself is C03/C04's subject)
      fits           the definition's value suits the outputs (one output: any admitted value;
@@ -17,10 +19,11 @@ From PW Require Import Base Wrap WrapProofs.
 
 (* ---- inputs ----------------------------------------------------------------------- *)
 (* One input per parameter, in order, default or NOT_DATA, annotation with None |-> NoneType;
-   a parameter named like an __init__ keyword is refused (ValueError). For ALL signatures. *)
+   a parameter named like an __init__ keyword or one of run's flags is refused (ValueError).
+   For ALL signatures. *)
 Theorem C17_inputs : forall d, NoDup (map p_name (f_params d)) ->
   inputs_preview d =
-    if existsb (fun p => mems (p_name p) init_keywords) (f_params d)
+    if existsb (fun p => mems (p_name p) reserved_keywords) (f_params d)
     then Err ValueErr else Ok (map input_entry (f_params d)).
 Proof. exact inputs_preview_spec. Qed.
 Print Assumptions C17_inputs.
@@ -29,7 +32,7 @@ Print Assumptions C17_inputs.
    inputs (labels and hints, in order), the output channels the previewed outputs, no data yet. *)
 Theorem C17_instance_channels : forall k pos kw n, instantiate k pos kw = Ok n ->
   n_cls n = k /\ map chan_sig (n_in n) = in_sigs k /\ map chan_sig (n_out n) = k_outputs k /\
-  n_failed n = false /\ forall c, In c (n_out n) -> c_value c = VNotData.
+  n_failed n = false /\ n_cached n = None /\ forall c, In c (n_out n) -> c_value c = VNotData.
 Proof. exact instantiate_channels. Qed.
 Print Assumptions C17_instance_channels.
 
@@ -80,16 +83,15 @@ Proof. exact process_function. Qed.
 Print Assumptions C17_output_store.
 
 (* ---- running a function node ------------------------------------------------------- *)
-(* For every accepted definition without a parameter named like one of Node.run's flags, every
-   construction split and every history of call splits: construction is refused exactly when
-   python's binding refuses; afterwards each call returns what the bare function returns for the
-   arguments accumulated so far (by python's binding), stores it in the outputs (whole / by
-   component), and is refused exactly when python would raise.  Cache hits included.
-   PARTIAL: the guard on parameter names is needed (C17_run_refuted_flag_name). *)
-Theorem C17_run_partial : forall sem d k,
+(* For EVERY accepted definition, every construction split and every history of call splits:
+   construction is refused exactly when python's binding refuses; afterwards each call returns
+   what the bare function returns for the arguments accumulated so far (by python's binding),
+   stores it in the outputs (whole / by component), and is refused exactly when python would
+   raise.  Cache hits included.  (No guard on parameter names any more: names that collide with
+   run's flags are refused at class creation, C17_inputs.) *)
+Theorem C17_run : forall sem d k,
   function_class d = Ok k ->
   NoDup (map p_name (f_params d)) ->
-  (forall x, In x (map p_name (f_params d)) -> ~ In x run_flags) ->
   (forall env, fits (k_outputs k) (sem env)) ->
   defaults_accepted k ->
   forall pos0 kw0, op_admitted k (pos0, kw0) ->
@@ -100,39 +102,14 @@ Theorem C17_run_partial : forall sem d k,
         let env0 := override (defaults_of k) b in
         value_dict (n_in n) = env0 /\
         forall ops, Forall (op_admitted k) ops ->
-          Forall2 (step_fn (k_outputs k)) (calls sem n ops) (ref_run sem env0 None ops)
+          Forall2 (step_fn (k_outputs k)) (calls sem n ops) (ref_run sem env0 ops)
   end.
 Proof. exact function_node_run. Qed.
-Print Assumptions C17_run_partial.
-
-(* Without the guard the statement is FALSE of the code: a parameter called fetch_input is an
-   input channel, python binds f(1, fetch_input=5), the node raises TypeError.  Known finding
-   C17-run-flag-named-parameter. *)
-Theorem C17_run_refuted_flag_name : exists d k n,
-  function_class d = Ok k /\ instantiate k [VInt 1] [] = Ok n /\
-  snd (ref_call (sem_of d) (value_dict (n_in n)) [] [("fetch_input", VInt 5)])
-    = Some (VTup [VInt 1; VInt 5]) /\
-  snd (call (sem_of d) n [] [("fetch_input", VInt 5)]) = Err TypeErr.
-Proof.
-  pose (d := {| f_params := [ {| p_name := "a"; p_default := None; p_ann := None |};
-                              {| p_name := "fetch_input"; p_default := Some (VInt 3); p_ann := None |} ];
-                f_body := [RTuple [ {| r_frags := ["a"]; r_expr := EParam "a" |};
-                                    {| r_frags := ["fetch_input"]; r_expr := EParam "fetch_input" |} ]];
-                f_ret := None; f_declared := None; f_validate := true |}).
-  exists d.
-  destruct (function_class d) as [k|] eqn:Ek; [|vm_compute in Ek; discriminate].
-  exists k. destruct (instantiate k [VInt 1] []) as [n|] eqn:En;
-    [|vm_compute in Ek; injection Ek as <-; vm_compute in En; discriminate].
-  exists n. vm_compute in Ek. injection Ek as <-. vm_compute in En. injection En as <-.
-  vm_compute. repeat split; reflexivity.
-Qed.
-Print Assumptions C17_run_refuted_flag_name.
+Print Assumptions C17_run.
 
 (* ---- transformers ------------------------------------------------------------------ *)
-(* inputs_to_list(n), ALL n, ALL construction splits, ALL histories of call splits: the node
-   follows "collect the accumulated arguments into a list, in order" -- except that a call
-   repeating the arguments of the latest successful call returns DotDict(outputs) (that is what
-   [step_ok] says for rep = true).  Exact characterisation of the code as it is. *)
+(* inputs_to_list(n), ALL n, ALL construction splits, ALL histories of call splits (repeated
+   calls included): the node is "collect the accumulated arguments into a list, in order". *)
 Theorem C17_inputs_to_list : forall n pos0 kw0,
   NoDup (keys kw0) ->
   match py_bind (map (numbered "item_") (range_from 0 n)) pos0 kw0 with
@@ -142,12 +119,13 @@ Theorem C17_inputs_to_list : forall n pos0 kw0,
         let env0 := override (map (fun i => (numbered "item_" i, VNotData)) (range_from 0 n)) b in
         value_dict (n_in nd) = env0 /\
         forall sem ops, Forall (fun op => NoDup (keys (snd op))) ops ->
-          Forall2 (step_ok (to_list_class n)) (calls sem nd ops) (ref_run list_of_env env0 None ops)
+          Forall2 (step_fn (k_outputs (to_list_class n))) (calls sem nd ops) (ref_run list_of_env env0 ops)
   end.
 Proof. exact to_list_run. Qed.
 Print Assumptions C17_inputs_to_list.
 
-(* inputs_to_dict(spec): names or {name: (hint, default)} *)
+(* inputs_to_dict(spec): names or {name: (hint, default)}.  The names are the caller's; the
+   side condition says none of them is one of run's flags (InputsToDict does not inspect them). *)
 Theorem C17_inputs_to_dict : forall s pos0 kw0,
   dspec_ok s ->
   (forall x, In x (keys (k_inputs (to_dict_class s))) -> ~ In x run_flags) ->
@@ -159,13 +137,14 @@ Theorem C17_inputs_to_dict : forall s pos0 kw0,
         let env0 := override (defaults_of (to_dict_class s)) b in
         value_dict (n_in nd) = env0 /\
         forall sem ops, Forall (op_admitted (to_dict_class s)) ops ->
-          Forall2 (step_ok (to_dict_class s)) (calls sem nd ops) (ref_run dict_of_env env0 None ops)
+          Forall2 (step_fn (k_outputs (to_dict_class s))) (calls sem nd ops) (ref_run dict_of_env env0 ops)
   end.
 Proof. exact to_dict_run. Qed.
 Print Assumptions C17_inputs_to_dict.
 
 (* dataclass nodes, ALL field layouts python accepts: the instance starts from the field
-   defaults with the default factories applied, and follows the dataclass's own constructor *)
+   defaults with the default factories applied, and follows the dataclass's own constructor
+   (same side condition on the field names as above) *)
 Theorem C17_dataclass : forall d uc k,
   dataclass_class d uc = Ok k ->
   NoDup (map fd_name (dc_fields d)) -> fields_accepted d ->
@@ -178,7 +157,7 @@ Theorem C17_dataclass : forall d uc k,
         let env0 := override (dc_defaults d) b in
         value_dict (n_in nd) = env0 /\
         forall sem ops, Forall (op_admitted k) ops ->
-          Forall2 (step_ok k) (calls sem nd ops) (ref_run (record_of (dc_name d)) env0 None ops)
+          Forall2 (step_fn (k_outputs k)) (calls sem nd ops) (ref_run (record_of (dc_name d)) env0 ops)
   end.
 Proof. exact dataclass_run. Qed.
 Print Assumptions C17_dataclass.
@@ -188,105 +167,66 @@ Theorem C17_dataclass_reference : forall d pos kw,
 Proof. exact dc_construct_ref. Qed.
 Print Assumptions C17_dataclass_reference.
 
-(* PARTIAL reading of the three theorems above as the property wants it: on a history in which
-   no call repeats the arguments of the latest successful call, every call returns the
-   definition's value and stores it.  Guard = "no repeat". *)
-Theorem C17_transformers_partial : forall k l l',
-  Forall2 (step_ok k) l l' -> Forall (fun x => snd x = false) l' ->
-  Forall2 (step_fn (k_outputs k)) l l'.
-Proof. exact history_no_repeat. Qed.
-Print Assumptions C17_transformers_partial.
-
-(* Without the guard: inputs_to_list(2)(1, 2) called twice -- the second call returns the
-   output dict, not the list.  Known finding C17-transformer-cache-hit-returns-output-dict. *)
-Theorem C17_transformers_refuted_repeat : exists nd sem,
-  instantiate (to_list_class 2) [VInt 1; VInt 2] [] = Ok nd /\
-  map snd (calls sem nd [([], []); ([], [])]) =
-    [Ok (VList [VInt 1; VInt 2]); Ok (VMap "DotDict" [("list", VList [VInt 1; VInt 2])])] /\
-  map (fun x => snd (fst x)) (ref_run list_of_env (value_dict (n_in nd)) None [([], []); ([], [])]) =
-    [Some (VList [VInt 1; VInt 2]); Some (VList [VInt 1; VInt 2])].
-Proof.
-  destruct (instantiate (to_list_class 2) [VInt 1; VInt 2] []) as [nd|] eqn:E; [|vm_compute in E; discriminate].
-  exists nd, (fun _ => VNone). vm_compute in E. injection E as <-. vm_compute. repeat split; reflexivity.
-Qed.
-Print Assumptions C17_transformers_refuted_repeat.
-
-(* list_to_outputs(n), ALL n: a list of the node's size, given positionally or by keyword, in
-   any earlier state of the node (no cache hit): every output gets its item, run returns the
-   item dict.  PARTIAL: guard = the list has exactly n items. *)
-Theorem C17_list_to_outputs_partial : forall sem n nd v0 l pos kw,
-  n_cls nd = from_list_class n -> n_in nd = [list_chan v0] ->
-  map chan_sig (n_out nd) = k_outputs (from_list_class n) -> n_failed nd = false ->
-  n_cached nd <> Some [("list", VList l)] ->
+(* list_to_outputs(n), ALL n: in every state the node reaches without failing (fresh instance
+   included, cache hit or not), a list given positionally or by keyword
+     - of exactly n items goes to the outputs item by item, and the item dict is returned;
+     - of any other length raises ValueError, leaves the outputs as they are, fails the node. *)
+Theorem C17_list_to_outputs : forall sem n nd l pos kw,
+  from_list_inv n nd ->
   NoDup (keys kw) -> py_bind ["list"] pos kw = Some [("list", Some (VList l))] ->
-  List.length l = n ->
-  call sem nd pos kw =
-    ({| n_cls := from_list_class n; n_in := [list_chan (VList l)];
-        n_out := fill (k_outputs (from_list_class n)) l; n_failed := false;
-        n_cached := Some [("list", VList l)] |}, Ok (items_dict l)).
+  n_in (fst (call sem nd pos kw)) = [list_chan (VList l)] /\
+  (List.length l = n ->
+     snd (call sem nd pos kw) = Ok (items_dict l) /\
+     n_out (fst (call sem nd pos kw)) = fill (k_outputs (from_list_class n)) l /\
+     from_list_inv n (fst (call sem nd pos kw))) /\
+  (List.length l <> n ->
+     snd (call sem nd pos kw) = Err ValueErr /\
+     n_out (fst (call sem nd pos kw)) = n_out nd /\ n_failed (fst (call sem nd pos kw)) = true).
 Proof. exact from_list_call. Qed.
-Print Assumptions C17_list_to_outputs_partial.
+Print Assumptions C17_list_to_outputs.
 
-(* Without the guard: after [1,2,3], the list [4,5] is accepted and item_2 keeps the stale 3.
-   Known finding C17-list-to-outputs-length-unchecked. *)
-Theorem C17_list_to_outputs_refuted_length : exists nd sem n1 n2 r2,
-  instantiate (from_list_class 3) [] [] = Ok nd /\
-  call sem nd [VList [VInt 1; VInt 2; VInt 3]] [] = (n1, Ok (items_dict [VInt 1; VInt 2; VInt 3])) /\
-  call sem n1 [VList [VInt 4; VInt 5]] [] = (n2, Ok r2) /\
-  map c_value (n_out n2) = [VInt 4; VInt 5; VInt 3].
-Proof.
-  destruct (instantiate (from_list_class 3) [] []) as [nd|] eqn:E; [|vm_compute in E; discriminate].
-  exists nd, (fun _ => VNone). vm_compute in E. injection E as <-.
-  eexists. eexists. eexists. vm_compute. repeat split; reflexivity.
-Qed.
-Print Assumptions C17_list_to_outputs_refuted_length.
+Theorem C17_list_to_outputs_fresh : forall n pos kw nd,
+  instantiate (from_list_class n) pos kw = Ok nd -> from_list_inv n nd.
+Proof. exact from_list_fresh. Qed.
+Print Assumptions C17_list_to_outputs_fresh.
 
-(* inputs_to_dataframe(n), ALL n, ALL key lists, ALL tables: when the rows are dicts over the
-   same keys in the same order, the node computes the transposition (column k = the k-cells of
-   the rows, in row order; no rows: the empty frame) and stores it in `df`.
-   PARTIAL: guard = uniform rows (ragged rows raise KeyError/ValueError in the loop or in pandas;
-   rows with permuted keys are covered by the correspondence check only). *)
-Theorem C17_inputs_to_dataframe_partial : forall sem ins ks table,
-  NoDup ks -> Forall (fun vs => List.length vs = List.length ks) table ->
-  map c_value ins = map (row_of ks) table ->
-  on_run sem RunToFrame ins = Ok (frame_of ks table).
+(* inputs_to_dataframe(n), ALL n, ALL tables of well-formed rows: when every row is a dict with
+   the key set of the first row (keys in any order), the node computes the transposition --
+   column k, in the key order of the first row, = the k-cells of the rows in row order; no rows:
+   the empty frame -- and stores it in `df`.
+   The guard [rows_ok] is about ILL-FORMED input only: a row with a missing or an extra key
+   makes the loop raise KeyError or pandas raise ValueError (modelled, checked by correspondence). *)
+Theorem C17_inputs_to_dataframe : forall sem ins rows,
+  match rows with [] => True | row0 :: _ => NoDup (keys row0) /\ rows_ok (keys row0) rows end ->
+  map c_value ins = map (VMap "dict") rows ->
+  on_run sem RunToFrame ins = Ok (frame_of rows).
 Proof. exact frame_on_run. Qed.
-Print Assumptions C17_inputs_to_dataframe_partial.
+Print Assumptions C17_inputs_to_dataframe.
 
-Theorem C17_inputs_to_dataframe_store : forall c ks table,
+Theorem C17_inputs_to_dataframe_store : forall c rows,
   chan_sig c = ("df", Some (HAtoms [ACls "DataFrame"])) ->
-  process_run_result (KFromMany "df") [c] (frame_of ks table) =
-    (expected_out [("df", Some (HAtoms [ACls "DataFrame"]))] (frame_of ks table), Ok (frame_of ks table)).
+  process_run_result (KFromMany "df") [c] (frame_of rows) =
+    (expected_out [("df", Some (HAtoms [ACls "DataFrame"]))] (frame_of rows), Ok (frame_of rows)).
 Proof. exact frame_store. Qed.
 Print Assumptions C17_inputs_to_dataframe_store.
 
 (* ---- the public constructor functions ------------------------------------------------ *)
-(* PARTIAL: without positional node values the constructor functions are the class call. *)
-Theorem C17_constructors_partial : forall n d kw,
-  ctor_to_frame n [] kw = instantiate (to_frame_class n true) [] kw /\
-  ctor_dataclass d [] kw =
-    match dataclass_class d true with Ok k => instantiate k [] kw | Err e => Err e end.
-Proof. intros n d kw. split; reflexivity. Qed.
-Print Assumptions C17_constructors_partial.
-
-(* With positional node values the first one lands in use_cache: inputs_to_dataframe(2, r0, r1)
-   puts r1 into row_0 and leaves row_1 empty.  Known finding C17-use-cache-swallows-first-positional. *)
-Theorem C17_constructors_refuted_use_cache : exists nd,
-  let r0 := VMap "dict" [("a", VInt 1)] in
-  let r1 := VMap "dict" [("a", VInt 2)] in
-  ctor_to_frame 2 [r0; r1] [] = Ok nd /\
-  value_dict (n_in nd) = [("row_0", r1); ("row_1", VNotData)] /\
-  py_bind ["row_0"; "row_1"] [r0; r1] [] = Some [("row_0", Some r0); ("row_1", Some r1)].
-Proof.
-  destruct (ctor_to_frame 2 [VMap "dict" [("a", VInt 1)]; VMap "dict" [("a", VInt 2)]] []) as [nd|] eqn:E;
-    [|vm_compute in E; discriminate].
-  exists nd. vm_compute in E. injection E as <-. vm_compute. repeat split; reflexivity.
-Qed.
-Print Assumptions C17_constructors_refuted_use_cache.
+(* For ALL positional and keyword node values the constructor functions are the class call
+   (use_cache is keyword-only in every one of them). *)
+Theorem C17_constructors : forall n s d pos kw,
+  ctor_to_list n pos kw = instantiate (to_list_class n) pos kw /\
+  ctor_from_list n pos kw = instantiate (from_list_class n) pos kw /\
+  ctor_to_dict s pos kw = instantiate (to_dict_class s) pos kw /\
+  ctor_to_frame n pos kw = instantiate (to_frame_class n true) pos kw /\
+  ctor_dataclass d pos kw =
+    match dataclass_class d true with Ok k => instantiate k pos kw | Err e => Err e end.
+Proof. intros n s d pos kw. repeat split; reflexivity. Qed.
+Print Assumptions C17_constructors.
 
 (* ---- non-vacuity --------------------------------------------------------------------- *)
 (* def f(a, b: int | None = None, c: int = 9): return a, (b, c)   wrapped with scraped labels:
-   the hypotheses of C17_run_partial hold, labels are a / (b, c), and f("u")(c=3) gives ("u", (None, 3)). *)
+   the hypotheses of C17_run hold, labels are a / (b, c), and f("u")(c=3) gives ("u", (None, 3)),
+   also when the call is repeated (cache hit). *)
 Example C17_hyps_hold :
   let d := {| f_params := [ {| p_name := "a"; p_default := None; p_ann := None |};
                             {| p_name := "b"; p_default := Some VNone;
@@ -300,23 +240,35 @@ Example C17_hyps_hold :
   exists k n, function_class d = Ok k /\
     keys (k_outputs k) = ["a"; "(b, c)"] /\
     NoDup (map p_name (f_params d)) /\
-    (forall x, In x (map p_name (f_params d)) -> ~ In x run_flags) /\
     (forall env, fits (k_outputs k) (sem_of d env)) /\
     defaults_accepted k /\
     instantiate k [VStr "u"] [] = Ok n /\
-    map snd (calls (sem_of d) n [([], [("c", VInt 3)])]) = [Ok (VTup [VStr "u"; VTup [VNone; VInt 3]])].
+    map snd (calls (sem_of d) n [([], [("c", VInt 3)]); ([], [])]) =
+      [Ok (VTup [VStr "u"; VTup [VNone; VInt 3]]); Ok (VTup [VStr "u"; VTup [VNone; VInt 3]])].
 Proof.
   cbv zeta.
   match goal with |- exists k n, function_class ?d = _ /\ _ => destruct (function_class d) as [k|] eqn:Ek end;
     [|vm_compute in Ek; discriminate].
   exists k. vm_compute in Ek. injection Ek as <-.
-  match goal with |- exists n, _ /\ _ /\ _ /\ _ /\ _ /\ _ /\ instantiate ?k ?p ?q = _ /\ _ =>
+  match goal with |- exists n, _ /\ _ /\ _ /\ _ /\ _ /\ instantiate ?k ?p ?q = _ /\ _ =>
     destruct (instantiate k p q) as [n|] eqn:En end; [|vm_compute in En; discriminate].
   exists n. vm_compute in En. injection En as <-.
   split; [reflexivity|]. split; [vm_compute; reflexivity|].
   split; [repeat constructor; simpl; intuition discriminate|].
-  split; [simpl; intros x [<-|[<-|[<-|[]]]]; vm_compute; intuition discriminate|].
   split; [intro env; simpl; eexists; split; [reflexivity|]; repeat constructor|].
   split; [intros l h v; simpl; intros [E|[E|[E|[]]]]; injection E as <- <- <-; reflexivity|].
   split; [reflexivity | vm_compute; reflexivity].
+Qed.
+
+(* list_to_outputs(3) in the scenario of the former defect: [1,2,3] then [4,5] -- the second call
+   now raises ValueError and the outputs keep [1,2,3]. *)
+Example C17_list_to_outputs_length_checked : exists nd sem n1 n2,
+  instantiate (from_list_class 3) [] [] = Ok nd /\
+  call sem nd [VList [VInt 1; VInt 2; VInt 3]] [] = (n1, Ok (items_dict [VInt 1; VInt 2; VInt 3])) /\
+  call sem n1 [VList [VInt 4; VInt 5]] [] = (n2, Err ValueErr) /\
+  map c_value (n_out n2) = [VInt 1; VInt 2; VInt 3].
+Proof.
+  destruct (instantiate (from_list_class 3) [] []) as [nd|] eqn:E; [|vm_compute in E; discriminate].
+  exists nd, (fun _ => VNone). vm_compute in E. injection E as <-.
+  eexists. eexists. vm_compute. repeat split; reflexivity.
 Qed.
